@@ -325,6 +325,8 @@ def run(chk: common.Check):
         lig.append(f"HETATM{9130 + k:>5d}  {nm:<3s} HCN L 312    {c[0] + 9.0 + dx * 0.6:8.3f}{c[1] + dx * 0.8:8.3f}{c[2]:8.3f}  1.00  0.00           {el}")
     t_lig = "\n".join(l for l in structures.read("sample-issue-140.pdb").splitlines() if l[:3] != "END") + "\n" + "\n".join(lig) + "\nEND\n"
     study("sample-issue-140 + ligands with Se / P / Si, propyne, HCN", t_lig, [], 1)
+    # hydrogens built next to a metal (HIS 46 NE2 - ZN in 1FTJ): still bonded to their one parent only, also under --protonate-all
+    study("1FTJ-Chain-A --protonate-all (zinc-bound histidine)", structures.read("1FTJ-Chain-A.pdb"), ["--protonate-all"], 0)
     t2 = structures.read("1HPX.pdb")
     study("1HPX (ligand KNI)", t2, [], 2 if chk.thorough else 1, axis_bonds=one_neighbour_bonds(t2, True, 3 if chk.thorough else 1))
     if chk.thorough:
